@@ -535,7 +535,7 @@ def c04(ck):
 
 
 @check("C05", design_ref="4 C05, App. E",
-       technique="TLA+ parser model with an unbounded-integer layer as the statement of what SML literals denote; trace validation of real parses of a systematic literal x type x position matrix",
+       technique="TLC model checking that the TLA+ parser model (unbounded-integer layer) agrees with a declarative bit-level statement of what integer literals denote, on every spelling of a bounded scope; those spellings replayed through the real parser; trace validation of real parses of a systematic literal x type x position matrix",
        text="SmlParser.tla states, with its own arithmetic, what every literal denotes for every item type (bases 2/8/10/16 in either case, signs, ranges "
             "of all widths, character codes, quoted strings as the characters between the quotes, T/F) and when it is an error. Every one of ~360 "
             "boundary literals is placed alone, first and second in an item of each of the 13 non-list types (plus random texts); TLC checks that the "
@@ -544,6 +544,19 @@ def c04(ck):
        note=SML_NOTE + "; declared freedoms: a leading-zero integer (010) is read as octal by integers and decimal by floats; +5 is refused for unsigned items - both as the code does today, the drivers include them and the specification follows the code")
 def c05(ck):
     ck.rule.append("13 types x about 360 literals (every range boundary of every width and its neighbours in bases 2, 8, 10, 16 and the 0-prefixed octal form, both signs; floats; strings; codes; T/F; variables) x 3 positions x random letter case, plus random plausible texts; non-trivial = every event; distinct by text")
+    # model stage: the parser model against a second, declarative statement of what integer literals denote (from the bits of the value)
+    ck.rule.append("model: MCLiteral - 36 magnitudes (0, 1, 7, 0xABCDEF, and 2^(w-1)-1, 2^(w-1), 2^(w-1)+1, 2^w-1, 2^w, 2^w+1, 1010.. for w = 8, 16, 32, 64) "
+                   "spelled in bases 2, 8 (0o and bare 0), 16 with both prefix cases, both hex letter cases, leading zeros (thorough), all three signs, "
+                   "and 16 decimal values, in items of U1-U8, I1-I8, B and A (alone; thorough: also behind another value): the parser model accepts "
+                   "exactly what fits the type and stores exactly the value the bits give; TLC -> Go: every one of those texts through the real parser")
+    r = ck.model("MCLiteral", "MCLiteral", "MCLiteral_%s.cfg" % ck.tier, timeout=q(ck, 600, 3000))
+    if not r.cases:
+        raise ToolError("MCLiteral emitted no cases")
+    table = write_cases(ck, r.cases, "litcases.ndjson")
+    ev = ck.trace("lit-replay", "lit-replay", ["-in", table, "-n", 1], "TraceSml", "TraceSml.cfg", ["InvC05x", "InvC05"], agree=["InvAgreeParse"], key=SML_KEY)
+    ck.replayed += len(ev)
+    if ck.violations:
+        return
     ck.trace("lit", "lit", ["-n", q(ck, 500, 20000)], "TraceSml", "TraceSml.cfg", ["InvC05"], agree=["InvAgreeParse"], key=SML_KEY)
     if ck.violations:
         return
